@@ -31,7 +31,7 @@ m = {
     "hooks": {
         "guard": "verif",
         "enable": "Go build tag `verif`: the harness module /verif/harness (replace github.com/arm-doe/sts => /repo) is rebuilt with `go build -tags verif` from /repo's working tree by every check",
-        "baseline_off_cmd": "cd /repo && GOFLAGS=-mod=mod GOPROXY=off go test -vet=off -count=1 -timeout 25m ./...",
+        "baseline_off_cmd": "cd /repo && GOFLAGS=-mod=mod GOPROXY=off go test -json -vet=off -count=1 -timeout 25m ./...",
         "source_commits": hook_commits,
         "add_only": True,
     },
